@@ -639,7 +639,7 @@ func (w *responseWriter) synthesise(orig *dns.Msg) (*dns.Msg, error) {
 	// the A records carry — short-lived A records intentionally
 	// keep DNS64 answers short-lived too.
 	ttl := noSOATTLCeiling
-	if negTTL := negativeAAAATTL(orig); negTTL > 0 {
+	if negTTL, ok := negativeAAAATTL(orig); ok {
 		ttl = negTTL
 	}
 	for _, a := range addresses {
@@ -893,20 +893,22 @@ func isCachedFailureResponse(ctx context.Context, m *dns.Msg) bool {
 	return hasExtendedError(m, dns.ExtendedErrorCodeCachedError)
 }
 
-// negativeAAAATTL returns the SOA-derived minimum negative TTL of
-// the original AAAA response, or 0 if no SOA is present. RFC 2308
-// — the negative TTL is min(SOA.MINIMUM, SOA.TTL).
-func negativeAAAATTL(m *dns.Msg) uint32 {
+// negativeAAAATTL returns the SOA-derived negative TTL of the original
+// AAAA response; ok is false when no SOA is present. RFC 2308 — the
+// negative TTL is min(SOA.MINIMUM, SOA.TTL), and zero is a value like any
+// other: a cached NODATA in its last second arrives with SOA TTL 0, and
+// must not be taken for "no bound".
+func negativeAAAATTL(m *dns.Msg) (ttl uint32, ok bool) {
 	for _, rr := range m.Ns {
-		if soa, ok := rr.(*dns.SOA); ok {
-			ttl := soa.Hdr.Ttl
-			if soa.Minttl > 0 && soa.Minttl < ttl {
+		if soa, isSOA := rr.(*dns.SOA); isSOA {
+			ttl = soa.Hdr.Ttl
+			if soa.Minttl < ttl {
 				ttl = soa.Minttl
 			}
-			return ttl
+			return ttl, true
 		}
 	}
-	return 0
+	return 0, false
 }
 
 // classifyQueryErr collapses queryer errors to a small label set so
